@@ -35,3 +35,10 @@ package api
 //@   loop 1 (range peers)
 //@     invariant len(strs) == len(peers)
 //@   modifies nothing
+
+//@ func (pin *Pin) IsRemotePin
+//@   property C05 C06
+//@   ensures res <==> (!(pin.ReplicationFactorMin == -1 && pin.ReplicationFactorMax == -1) && !in(pid, elems(pin.Allocations)))
+//@   loop 1 (range pin.Allocations)
+//@     invariant forall j int :: 0 <= j && j < idx1 ==> pin.Allocations[j] != pid
+//@   modifies nothing
